@@ -250,10 +250,20 @@ pub fn create_temp_db(
     dbs: &Arc<Databases>,
 ) -> Arc<Database> {
     let initial_db = HashMap::new();
+    // Next id after the highest one in use, the number of databases repeats an id once a
+    // restart loaded only some of the databases that existed before
+    let next_id = dbs
+        .map
+        .read()
+        .expect("could not get lock")
+        .values()
+        .map(|db| db.metadata.id + 1)
+        .max()
+        .unwrap_or(0);
     return Arc::new(Database::create_db_from_hash(
         name,
         initial_db,
-        DatabaseMataData::new(dbs.map.read().expect("could not get lock").len(), strategy),
+        DatabaseMataData::new(next_id, strategy),
     ));
 }
 
